@@ -456,7 +456,11 @@ theorem wf_callNo {cfg : Cfg} {s : St K V} (ci : CallIn K V) (h : WF cfg s) (ha 
   unfold callNo
   split
   · exact wf_keyFail _ _ h
-  · exact wf_keyFail _ _ h
+  · split
+    · split
+      · exact hclr _ _ _ _ rfl
+      · exact h
+    · exact h
   · simp only
     split
     · exact hclr _ _ _ _ rfl
